@@ -282,6 +282,11 @@ spec fn add_post(t: NaiveTime, d: int, res: NaiveTime, carry_secs: int) -> bool 
     twf(res) && (if m.0 { carry_secs == 0 && res.secs == t.secs && tpos(res) == m.1 }
                  else { nonleap(res) && tpos(res) == m.1 % DAYNS() && carry_secs * 1_000_000_000 == m.1 - m.1 % DAYNS() && carry_secs % 86400 == 0 })
 }
+// the time of day that results from adding d nanoseconds (carry dropped): (secs, frac)
+spec fn add_time(t: NaiveTime, d: int) -> (int, int) {
+    let m = add_model(t, d);
+    if m.0 { (t.secs as int, m.1 - t.secs as int * 1_000_000_000) } else { ((m.1 % DAYNS()) / 1_000_000_000, (m.1 % DAYNS()) % 1_000_000_000) }
+}
 // position on the joint line that contains the leap second of whichever operand is leap (C07 difference)
 spec fn jpos(x: NaiveTime, other: NaiveTime) -> int {
     tpos(x) + (if leap(other) && other.secs < x.secs { 1_000_000_000int } else { 0int })
